@@ -55,10 +55,16 @@ func run(G int, fn func(g int)) {
 func TestC06RoundRobinExactShares(t *testing.T) {
 	hx.Check(t, hx.Scale(30, 300), func(t *rapid.T) {
 		n := rapid.IntRange(2, 12).Draw(t, "ntargets")
+		// equal weights give a ring of n slots: the cursor wraps around all the time
+		equal := rapid.IntRange(0, 2).Draw(t, "equalweights") == 0
 		var cfg strings.Builder
 		for i := 0; i < n; i++ {
 			fmt.Fprintf(&cfg, "route add svc /p http://t%d:80/", i)
-			switch rapid.IntRange(0, 3).Draw(t, "wkind") {
+			k := rapid.IntRange(0, 3).Draw(t, "wkind")
+			if equal {
+				k = 3
+			}
+			switch k {
 			case 0:
 				fmt.Fprintf(&cfg, " weight %.4f", float64(rapid.IntRange(1, 3000).Draw(t, "w"))/10000)
 			case 1:
